@@ -60,7 +60,7 @@ _A_GEN = ("rapid state-machine style generation against one fresh leader instanc
           "flags, Count/Rcount/Timeout/Expried over their whole ranges with weights on boundary values), bursts of 9..330 "
           "requests on one key (holders 200..260 beyond the in-line holder list; FIFO waiters 150..330 beyond the in-line wait slice, then a late "
           "priority waiter, cancel-waits, or a drain of >= 256 grants by unlock-first followed by late arrivals that must not overtake the "
-          "overflow ring), long-expiry scenarios (2..6 holds sharing an entry of the long expiry table - zero-aof-time flag with E > 5 s, or aged "
+          "overflow ring), priority-drain scenarios (the highest priority level of a priority-mode wait queue is served completely while lower levels stay queued, then newcomers with priorities between the live maximum and the drained one and mixed Counts), long-expiry scenarios (2..6 holds sharing an entry of the long expiry table - zero-aof-time flag with E > 5 s, or aged "
           "> 45 s - of which some leave by unlock or update before the deadline; the others must expire on time), virtual-clock ticks (single seconds and clock jumps with the catch-up loop, timeout sweep before/after "
           "expiry sweep), pool collection; then a drain (cancel every queued request, release every hold, advance the clock 24 s). "
           "Oracle: reference ledger driven by the reply stream + in-package snapshot after every operation and every clock second. ")
@@ -70,9 +70,10 @@ _B_GEN = (" Engine B (controlled schedules): a sequential prefix of 1..8 request
           "run as goroutines that park at the shard-mutex hook points (about to lock / just unlocked); exactly one runs at a time and the rapid-drawn schedule picks which parked "
           "thread continues, so the interleaving is part of the case and replays. One case in ten is the key-manager recycling scenario (a request for key 0 is held "
           "back in front of the shard mutex - a 'stall' directive of the schedule - while key 0's last hold ends, a sweep recycles its key manager and a run of 8..12 fresh keys "
-          "is locked under the stalled request's LockId until the recycled manager is handed out again). After every segment the in-package snapshot is compared with the previous one: a new holder "
+          "is locked under the stalled request's LockId - or, for a stalled LOCK, under other LockIds with sharing Counts - until the recycled manager is handed out again; variants: key 0's manager in the overflow map of the key table "
+          "(another key owns the only fast slot, or its hold is filed in the long expiry table), an ordered thread 'unlock, sweep, fresh keys, refill of key 0', and the 'orphan' variant in which the removed manager is NOT handed out again before the stalled LOCK continues). After every segment the in-package snapshot is compared with the previous one: a new holder "
           "only if the admission rule held before (C01), every holder that left a key without expiring is matched (maximum matching) by an unlock request of the concurrent "
-          "phase for that key bearing its LockId or the unlock-first flag (C01: a hold is outstanding until its unlock is accepted, it expires or is rolled back), granted waiter was the head of the queue (C04), locked == sum of depths and STATE counters == census (C17); every reply "
+          "phase for that key bearing its LockId or the unlock-first flag (C01: a hold is outstanding until its unlock is accepted, it expires or is rolled back), granted waiter was the head of the queue (C04), a key manager records only requests sent for its key and every LOCK of the concurrent phase that has been answered SUCCED is a holder of its key unless a request sent meanwhile may have ended or re-termed the hold (C01), locked == sum of depths and STATE counters == census (C17; a violation of another property than the one under test does not end the run, so that its consequences for the property under test are still observed); every reply "
           "is checked against the request table (C03); at the end of the schedule no admissible head waiter (C04), then a drain: all counts zero, nothing reachable, every request "
           "answered exactly once (C17, C03). Non-trivial (engine B): >=2 thread switches and a holder added or removed during the concurrent phase.")
 
@@ -114,7 +115,8 @@ PROPS["C15"]["units"][1] = plain_unit("replay-C15", "^TestC15_Replay$", replay=T
 PROPS["C15"]["rule"] = ("Two layers. (a) pure differential: LockManager.ProcessLockData on a bare key manager vs. a sequential interpreter written from the "
                         "protocol description, 1..14 operations per case over typed keys (bytes: SET/APPEND/SHIFT/UNSET; number: INCR/SET/UNSET; array: PUSH/POP/UNSET), "
                         "payloads 0..700 bytes, INCR operands incl. int64 extremes, SHIFT/POP beyond the length, property headers, single-level PIPELINEs, "
-                        "carried on lock and unlock commands. (b) " + PROPS["C15"]["rule"])
+                        "carried on lock and unlock commands; a third of the SETs on a LOCK with the update flag or a zero-expiry LOCK (the carriers for which a SET equal to the stored frame is a no-op); "
+                        "15% of the cases end with the same payload bytes stored twice with different value types (plain / array). (b) " + PROPS["C15"]["rule"])
 PROPS["C15"]["assumptions"] = PROPS["C15"]["assumptions"] + [
     "keys are typed per case/index so only operations the protocol description defines for that value type meet; array elements are non-empty",
     "operations flagged process-first-or-last may legitimately be skipped (documented convention): both outcomes are accepted",
@@ -265,7 +267,7 @@ PROPS["C07"] = {
     "level": "exploration",
     "rule": ("rapid-generated histories (engine A grammar restricted to Timeout 0; expiries in seconds/minutes/unlimited chosen at least 15 s away "
              "from the restart instant; persist-immediately / never-persist / percent aof flags on 50% of the requests; value SET/PUSH/INCR attached when a "
-             "hold is created; re-entrant re-locks and updates of live holds; unlocks incl. unlock-first/cancel/one level; 1-3 s clock ticks; admin REWRITEAOF rotations+compactions at drawn points; 2 databases; "
+             "hold is created; re-entrant re-locks and updates of live holds (a third of the updates carry the minute time-out flag, meaningless with Timeout 0 but part of the command in force); unlocks incl. unlock-first/cancel/one level; 1-3 s clock ticks; admin REWRITEAOF rotations+compactions at drawn points; 2 databases; "
              "aof_file_buffer_size in {64,128,256,4096}, db_lock_aof_time in {0,1}) run on instance 1 whose clock lags the wall clock by 15/45/130 s "
              "(= an outage of that length); at a quiescent point (persistence queue drained, file flushed) the directory is copied, a fresh leader is "
              "started on the copy (wall clock) and its in-package snapshot must contain exactly the persisted, still-live holds of instance 1 (same key, "
